@@ -25,6 +25,23 @@ _COMPONENTS_AST = {
 }
 
 CHECKS = {
+    "C27": {
+        "engine": "lib_order",
+        "level": "exploration",
+        "rule": "Seeded package libraries (package-level constants, nested package, 4-7 models/connectors/types referring "
+                "to each other and to the constants by relative and fully qualified names) rendered as one file (the "
+                "reference) and split into 2-5 files with within clauses; merge: parse + Tree.extend in EVERY permutation "
+                "of the files, every class flattened and compared with the single-file library; walk: the CasADi API "
+                "(transfer_model) and the compiler tool on the folder with os.scandir's order decided by the plan (all "
+                "permutations of <= 4 entries per directory, flat and nested layouts). distinct_nontrivial = distinct "
+                "(split shape, permutation class, entry point, file assignment/order).",
+        "assumptions": ["the per-file declaration counter Symbol.order is not part of the flattened model and is ignored "
+                        "in the comparison", "walk leg: models compared across directory orders (not with the single file), "
+                        "with replace_constant_values as the CasADi backend needs it for constants in attributes"],
+        "components": {"real": ["pymoca parser, ast (Tree.extend), tree.flatten, CasADi API _compile_model, tools.compiler "
+                                "from the working tree"],
+                       "simulated": ["directory enumeration order (os.scandir seam)", "merge order"], "stub": []},
+    },
     "C05": {
         "engine": "flatten_hist",
         "level": "exploration",
@@ -136,6 +153,16 @@ CHECKS = {
 }
 
 MANIFEST_TEXT = {
+    "C27": {
+        "level_text": "The file order is the schedule: every permutation of the files of seeded library splits through "
+                      "Tree.extend, and decided os.scandir orders through the API's and the CLI's directory walks; the "
+                      "single-file rendering of the same library is the reference.",
+        "design_ref": "DESIGN.md 3.C27",
+        "level_note": "Libraries come from one generator family (constants, nested package, extends/component/type "
+                      "references, connectors); permutations are exhaustive per split, libraries and splits are sampled.",
+        "technique": "deterministic simulation: schedule = directory enumeration / merge order (os.scandir seam), all "
+                     "permutations per generated split vs the unsplit reference",
+    },
     "C05": {
         "level_text": "Seeded and systematic request histories of several callers on one shared tree, each request compared "
                       "with a single-copy reference (fresh parse); plus joint vs single CLI invocations.",
@@ -239,5 +266,4 @@ NOT_APPLICABLE = {
     "C25": _PURE + "XML generation depends on the flat class only (its deep copy of the tree is C06).",
     # claimed in DESIGN.md, engines not built yet: listed here until their checks are registered
     "C26": "in-family engine (cli_faults) designed in DESIGN.md but not built yet",
-    "C27": "in-family engine (lib_order) designed in DESIGN.md but not built yet",
 }
